@@ -77,7 +77,9 @@ SeqSet(s) == {s[i] : i \in 1..Len(s)}
 (*   status   "101" | "other3" | "short" | "long" | "nondigit" | "wrap"    *)
 (*            | "empty"   (only the literal token 101 is a 101)            *)
 (*   upgrade, connection: "absent" | "ok" | "varied" | "wrong" | "dup"     *)
-(*   accept   "absent" | "ok" | "varied" | "otherkey" | "short" | "dup"    *)
+(*   accept   "absent" | "ok" | "varied" | "dup" | "otherkey" | "short"    *)
+(*            | "lowbits" (only the unused low bits of the last base64     *)
+(*            symbol differ) | "casefold" | "padded": all not the value    *)
 (*   protocol "none" | "requested" | "foreign"                             *)
 (*   exts     "none" | "offered" | "offeredparams" | "foreign" | "mixed"   *)
 (***************************************************************************)
